@@ -18,12 +18,19 @@ SPEC = dict(
           "refusal}, phase in {inside connect(), parked +d us (d around the expiry), inside the timeout path's close(sid), after "
           "that call but before the engine processes the close, after connectSync returned}, engine processes the close "
           "{inside the call, delayed, after return}; optional stop() at a generated time. sched_enum: all 90 single-caller cells. "
+          "teardown: 1-8 callers parked in ONE connectSync each through a plain pointer; the owner thread drops the last "
+          "shared_ptr (~Transport: fence, engine stop, waits the callers out) or calls stop(), released {at a generated time, "
+          "right BEFORE the I/O thread fires a victim's onConnect with the handler's (or the fake's) mutex release held / "
+          "followed by a pause so the owner queues on the sync mutex and wins against the woken caller, right AFTER it returned} "
+          "+ 0..200 us; both results are legal for the race, only 'error + global callback for that id' / 'left open' fails. "
           "real: 1-8 callers x 1-4 calls against {accepting, refusing, black-hole (backlog 0 + queued connection), "
           "RST-after-accept, 10.255.255.1} with timeouts {0,1,2,5,20,100 ms}, 1/5 cancellable with a cancel at a generated time. "
           "Non-trivial = an engine event placed in/after the timeout path's close, or a completion within 2 ms of the expiry "
-          "(sched); a timeout <= 2 ms against a target whose handshake completes, or a Cancelled result (real). Distinct by hash of the plan."),
-    assumptions=["callers hold a shared_ptr<Transport> for the duration of a call (shared-ownership contract): teardown is "
-                 "exercised as stop(), not as destruction under a running call",
+          "(sched); the victim's onConnect fired before the teardown began (teardown); a timeout <= 2 ms against a target whose "
+          "handshake completes, or a Cancelled result (real). Distinct by hash of the plan."),
+    assumptions=["sched/real: callers co-own the Transport, teardown is stop(); teardown: destruction under parked calls is "
+                 "exercised only in the form the teardown handshake documents (INV-5: callers already inside connectSync are waited "
+                 "out) - every caller is inside engine->connect() before the owner starts and makes no further call",
                  "TLS targets are not generated (optional in the brief)",
                  "error codes of the real engine are not judged beyond 'is an error' (its internal reports are not observable); "
                  "with the fake engine a non-timeout error must be one the engine really reported for that call"],
@@ -32,6 +39,7 @@ SPEC = dict(
             sched=P(600, 6000, 4, 16, extra=["--shrink-seconds", "30"]),
             sched_enum=P(400, 3000, 2, 4, extra=["--shrink-seconds", "20"]),
             real=P(500, 4000, 4, 16, extra=["--shrink-seconds", "30"]),
+            teardown=P(500, 5000, 4, 16, extra=["--shrink-seconds", "30"]),
         )),
     ],
 )
